@@ -167,6 +167,43 @@ def case_linear(H, filt, n, mdim, p, kpar=None):
         # relations contributed by the contract stubs on this path (L L^T = (n+k) P, pinv(S) S = 1, sqrt definitions): each is
         # first proved to follow from the path's hypotheses, then used by the certificate search
         rels = [g for (_, g) in ctx.relations] + [v * v - a for (fn, _), (v, a) in ctx.tf.items() if fn == 'sqrt']
+        pc_ = getattr(ctx, 'pinv_calls', [])
+        if p == 1 and len(pc_) == 1 and pc_[0].get('shape') == (1, 1):
+            # scalar innovation: staged.  (a) the Cholesky relations (info == 0 on this path) hold; (b) the innovation covariance the code
+            # hands to pinv IS the Kalman S (polynomial certificate modulo (a), the factor variables eliminated in creation order);
+            # (c) hence it is positive and the stub's inverse is 1/S; (d) mean and covariance with pinv replaced by 1/S.
+            from symx.terms import free_vars, subst
+            chol = [g for (cnd, g) in ctx.relations if 'chol_info' in str(cnd)]
+            cv = {}
+            for g in chol:
+                for nm_, v_ in free_vars(g).items():
+                    if nm_.startswith('chol_'):
+                        cv[nm_] = v_
+            elim = [cv[k_] for k_ in sorted(cv, key=lambda s_: -int(s_.split('!')[1]))]
+            LA = H.prove(name + '/lemma:cholesky-relations-hold', hyp, z3.And([g == 0 for g in chol]) if chol else z3.BoolVal(True),
+                         key='C13/%s/kalman' % filt, timeout=to)
+            Sc, pv = pc_[0]['A'][0], pc_[0]['P'][0]
+            LB = H.certify(name + '/lemma:code-innovation-covariance==Kalman-S', Sc, S[0][0], chol, hyps=hyp, depends=[LA], elim=elim, replay=replay,
+                           key='C13/%s/kalman' % filt, timeout=to)
+            # (focused: only the stub's own axioms about this pinv variable, plus the two lemmas)
+            pax = [ax for ax in ctx.axioms if str(pv) in free_vars(ax)]
+            LC = H.prove(name + '/lemma:pinv==1/S', pax + [Sc == S[0][0], S[0][0] > 0], pv * S[0][0] == 1, depends=[L, LB], key='C13/%s/kalman' % filt, timeout=to)
+            deps = [L, LA, LB, LC]
+            hyp3 = hyp2 + [g == 0 for g in chol] + [Sc == S[0][0], pv * S[0][0] == 1]
+            sub = [(pv, 1 / S[0][0])]
+            for i in range(n):
+                H.certify('%s/mean[%d]' % (name, i), subst(xo[i], sub), xk[i], chol, hyps=hyp3, replay=replay, key='C13/%s/kalman' % filt, depends=deps,
+                          elim=elim, timeout=3 * to)
+            for i in range(n):
+                for j in range(n):
+                    H.certify('%s/cov[%d,%d]' % (name, i, j), subst(Po[i * n + j], sub), Pk[i][j], chol, hyps=hyp3, replay=replay,
+                              key='C13/%s/kalman' % filt, depends=deps, elim=elim, timeout=3 * to)
+            # symmetric / PSD follow from equality with the Kalman posterior, whose PSD-ness is a fact about the oracle terms alone
+            vs = [z3.Real('v%d' % i) for i in range(n)]
+            quadk = z3.Sum([vs[i] * Pk[i][j] * vs[j] for i in range(n) for j in range(n)])
+            H.prove('%s/kalman-posterior-psd' % name, list(ctx.assume) + [S[0][0] > 0], quadk >= 0, key='C13/%s/psd' % filt, depends=[L], timeout=to)
+            H.reach(name + '/reach', hyp)
+            continue
         LR = H.prove(name + '/lemma:stub-relations-hold', hyp2, z3.And([g == 0 for g in rels]) if rels else z3.BoolVal(True),
                      key='C13/%s/kalman' % filt, depends=[L], timeout=to)
         for i in range(n):
